@@ -267,3 +267,4 @@ _amend('C09', 'axisAngle() on a rotation matrix in general position returns sign
 _amend('C10', 'The same definitions are checked for the aligned matrix types of the SIMD configurations (SSE2; AVX2 and double in the thorough tier), which have their own inverse / determinant code.')
 _amend('C11', 'The GLSL definitions are checked for the scalar overload and for every vector length, including the mixed vector / scalar overloads; step is total (a NaN operand gives 1).')
 _amend('C03', 'Undecided class A / class B pairs are refuted by exact evaluation of both derived terms (ties, the 2^23 boundary, O(1) pools); lowp hardware approximations are decided by an error-factor argument (intrinsic lane == pure lane times or over one factor 1 + e, |e| <= 1.5 * 2^-12).')
+_amend('C20', 'A run-time index into an object of known size yields one alternative per element and an out-of-bounds obligation; the half decoders are analysed with the loop peeled and discharged on the 52 shapes of a half code; the ladders of the signed power-of-two functions by case analysis on x - 1.')
